@@ -7,7 +7,10 @@ Open Scope N_scope.
    greedy skip tombstoned neighbours; the score is the query distance *)
 Lemma C01_facts_ok :
   handover_skips_deleted = Known true /\ handover_falls_back = Known true /\ search_skips_deleted = Known true /\
-  search_score_is_query_distance = Known true /\ dataset_merge_sort_then_truncate = Known true.
+  search_score_is_query_distance = Known true /\ dataset_merge_sort_then_truncate = Known true /\
+  (* an update is remove + insert of the merged item (C02): the metadata a later search returns is the merge by key
+     presence, new keys winning *)
+  update_merge_keeps_old = Known true.
 Proof. repeat split; reflexivity. Qed.
 
 (* every history of inserts and removes (any ids, vectors, levels, metadata; updates are remove + insert, see C02),
